@@ -37,14 +37,15 @@ TRANSACT = "Transact-SQL"
 PL = "PL/SQL"
 
 
-def _digit_count(sign_adjusted_limit):
+def _digit_count(sign_adjusted_limit, maximum_digit_count):
     """
     Number of decimal digits a column needs to store any integer within ``sign_adjusted_limit``,
     which for a negative number ``n`` is ``-(n + 1)``.
     """
     result = len(str(sign_adjusted_limit))
-    if sign_adjusted_limit + 1 == 10**result:
-        # The negative limit -10...0 has one more digit than its sign adjusted limit 9...9.
+    if (sign_adjusted_limit + 1 == 10**result) and (result < maximum_digit_count):
+        # The negative limit -10...0 has one more digit than its sign adjusted limit 9...9; unless the
+        # dialect has no type with that many digits, in which case at least the limit 9...9 still fits.
         result += 1
     return result
 
@@ -776,7 +777,7 @@ class PlSqlDialect(AnsiSqlDialect):
         elif ansi_type == "int":
             length = sql_ansi_type[1]
             if (length is not None) and (length > MAX_INTEGER):
-                result = ("number", _digit_count(length), 0)
+                result = ("number", _digit_count(length, 38), 0)
 
         return result
 
@@ -996,7 +997,7 @@ class TransactSqlDialect(AnsiSqlDialect):
             elif limit <= MAX_BIGINT:
                 result = ("bigint", limit)
             else:
-                result = ("decimal", _digit_count(limit), 0)
+                result = ("decimal", _digit_count(limit, 38), 0)
         else:
             result = sql_ansi_type
 
@@ -1321,7 +1322,7 @@ class Db2SqlDialect(AnsiSqlDialect):
             elif length <= MAX_BIGINT:
                 result = ("bigint", length)
             else:
-                result = ("decimal", _digit_count(length))
+                result = ("decimal", _digit_count(length, 31))
         return result
 
     def __str__(self):
